@@ -137,6 +137,11 @@ func (c *Catalog) createTable(stmt *ast.CreateTableStmt) error {
 	} else if err == nil {
 		return sqlerr.RelationExists(stmt.Name.Name)
 	}
+	// A table owns a row type of the same name, so the name must also be
+	// distinct from the name of any existing type in the same schema.
+	if _, _, err := schema.getType(&ast.TypeName{Name: stmt.Name.Name}); err == nil {
+		return sqlerr.TypeExists(stmt.Name.Name)
+	}
 
 	tbl := Table{Rel: stmt.Name, Comment: stmt.Comment}
 
